@@ -17,7 +17,7 @@ ASSUMPTIONS = [
 
 class Check(HCheck):
     pid = ID
-    owned = ("page", "pages", "links", "crawl", "as_str")
+    owned = ("page", "pages", "links", "crawl", "as_str", "as_iter", "crawl_alias")
     must_count = ("pages_compared_nonempty", "report_new_pages_positive")
 
     def spaces(self, tier):
@@ -40,6 +40,8 @@ class Check(HCheck):
             al.rule(A, "path1"),
             al.as_str(al.page(Ab, True)),  # LRUs handed over as str (the API encodes them)
             al.as_str(al.CB_CROSS),
+            al.as_iter(al.LB_SELF),
+            al.crawl_alias(Ab, (Axy,), (Ab, Az)),
         ]
         d = 5 if thorough else 4
         sp = [
